@@ -114,6 +114,31 @@ start :: fn do
 end
 ''', {})
 
+T("float_nan_comparisons", "comparisons-with-nan", '''
+start :: fn do
+    z := 0.0
+    nan := z / z
+    print(nan < 1.0)
+    print(not (nan < 1.0))
+    print(not (nan >= 1.0))
+    print(not (nan > 1.0))
+    print(not (nan <= 1.0))
+    print(nan == nan)
+    print(nan != nan)
+    print(not (nan == nan))
+    x := ?x:float
+    print(not (x < nan))
+    print(not (nan <= x))
+    if not (nan >= 0.0) do
+        print(1)
+    else do
+        print(2)
+    end
+    t := (nan, 1.0)
+    print(not (t < (1.0, 1.0)))
+end
+''', {})
+
 T("int_div", "int-division-yields-float", '''
 start :: fn do
     a := 7
